@@ -31,7 +31,8 @@ LEVEL_TEXT = (
     "setting, at every yearly transition +-1 s/+-30 min/+-1 day and random "
     "instants of four years incl. leap years, both hemispheres. Also: no-DST "
     "strings, GMT+h sign rule, malformed strings. Rule arithmetic is input "
-    "sampling and is reported as such.")
+    "sampling and is reported as such."
+    " Session 3 added: one-aspect sibling specifications in one run, zones built inside threads from valid and malformed strings (shared TZ-string parser), standard zones named GMT/UTC with daylight rules judged by dateutil's documented non-POSIX reading, calendar.firstweekday() configuration events, years 1971-2400, fourteen malformed-string shapes incl. non-ASCII letters.")
 LEVEL_NOTE = (
     "Trusted: the POSIX model (models/posixtz.py, cross-checked against glibc "
     "in every run) and glibc itself; rule domain as the property restricts it "
